@@ -88,7 +88,7 @@ def run(chk):
                         'first_events': tr['ev'][:8]})
     chk.cov['model_drift_runs'] = drift_total
     chk.assume('peers act between loop iterations only (reduction argument, DESIGN.md 2.3)',
-               'SimNet socket semantics (harness/simnet.py) stand for the kernel; cross-checked by checks/simkernel.py',
+               'SimNet socket semantics (harness/simnet.py) stand for the kernel; probed against loopback TCP on this kernel by tools/kernel_probe.py (close / reset / half-close outcomes)',
                'delivery towards the upstream is demanded only while that upstream is fully open; towards the client while it can still receive; client half-close cases are unconstrained (DESIGN.md 4.6)',
                'TLS-wrapped relays are not exercised on SimNet')
 
